@@ -484,7 +484,10 @@ def numbers_part(ctx):
                 triples.append((a, b, 0.3))
             else:
                 triples.append((a, b, rng.choice([1.0, 1.0, 0.3])))
-    nextra = 6000 if ctx.thorough else 700
+    # the witnesses of the _refuted theorems and of the known findings
+    triples += [(1e308, 1.7e308, 1.0), (2 ** 53, 2 ** 53 + 1, 1.0), (5e-324, 1e-323, 5e-324), (10 ** 400, 1, 1.0), (1, 2, 0.0),
+                (2, 0.5, 1.0), (1e-320, 3e-320, 1e-300), (Decimal("9007199254740993"), 2 ** 53, 1.0)]
+    nextra = 12000 if ctx.thorough else 700
     for _ in range(nextra):
         a = rng.choice(grid) if rng.random() < 0.5 else rand_double(rng)
         b = rng.choice(grid) if rng.random() < 0.4 else (a if rng.random() < 0.1 else rand_double(rng))
@@ -742,7 +745,7 @@ def gen_pairs(ctx):
     for a, b in hand:
         out.append((a, b, "hand"))
         out.append((b, a, "hand"))
-    n_rand = 2500 if ctx.thorough else 330
+    n_rand = 6000 if ctx.thorough else 330
     for _ in range(n_rand):
         v = values.gen_value(rng, depth=rng.choice([1, 2, 3]), width=rng.choice([2, 3, 4]), alias=rng.random() < 0.2)
         r = rng.random()
@@ -758,7 +761,7 @@ def gen_pairs(ctx):
             out.append(((v, s) if rng.random() < 0.5 else (s, v)) + ("scalar_vs_any",))
     # several insertions / deletions in one list (difflib opcodes), and lists of containers re-ordered and edited
     # (pairing in ignore_order mode)
-    for _ in range(600 if ctx.thorough else 90):
+    for _ in range(1500 if ctx.thorough else 90):
         base = [values.gen_value(rng, depth=rng.choice([0, 0, 1]), width=3) for _ in range(rng.randint(3, 8))]
         new = copy.deepcopy(base)
         for _k in range(rng.randint(2, 4)):
@@ -769,7 +772,7 @@ def gen_pairs(ctx):
         if rng.random() < 0.3:
             base, new = {"k": base, "z": 1}, {"k": new, "z": 1}
         out.append((base, new, "multi_edit_list"))
-    for _ in range(600 if ctx.thorough else 90):
+    for _ in range(1500 if ctx.thorough else 90):
         base = [values.gen_value(rng, depth=2, width=3, kinds="LDT") for _ in range(rng.randint(2, 5))]
         new = copy.deepcopy(base)
         rng.shuffle(new)
@@ -785,7 +788,7 @@ def gen_pairs(ctx):
             if ctx.thorough or rng.random() < 0.45:
                 out.append((copy.deepcopy(a), copy.deepcopy(b), "atoms"))
     uni = values.small_universe(atoms=(None, True, 2, 0.5, "a", ""), maxlen=2, depth=1, kinds="LDS")
-    k = 1200 if ctx.thorough else 160
+    k = 3000 if ctx.thorough else 160
     for _ in range(k):
         out.append((copy.deepcopy(rng.choice(uni)), copy.deepcopy(rng.choice(uni)), "universe"))
     return out
